@@ -182,6 +182,39 @@ int main(void)
                                 o_s(c, "\",\"return\":"); o_u(c, (uint64_t)(int64_t)(ret < 0 ? 0 : ret)); o_s(c, "}"); o_end(c);
                             }
                         } else longobs++;
+                        /* cyclic transmitter: the same buffer is rebuilt without re-initialisation, same identifier and variant,
+                         * another payload length (in particular one that rounds to the same quadlet count) */
+                        if (judged && placement == 0 && k < 6) {
+                            static const int dl[] = { -1, 1, -2, 2, -3, 3, 4, -5 };
+                            for (int di = 0; di < 8; di++) {
+                                int L2i = (int)L + dl[di];
+                                if (L2i < 0 || L2i > 64) continue;
+                                uint32_t L2 = (uint32_t)L2i, pad2 = (4 - L2 % 4) % 4, total2 = H + L2 + pad2;
+                                uint8_t pl2[72]; vp_rng_fill(&c->rng, pl2, 72);
+                                int ret2;
+                                vp_call(c);
+                                run_builder(b, p, id, pl2, L2, fd, &ret2);
+                                model(s, brief, id, pl2, L2, fd, id <= 0x1fffffff, p);
+                                c->evals++;
+                                vp_tr_bytes(c, p, total2);
+                                size_t o2, c2, l2;
+                                if (vp_arena_diff(c, &a, &o2, &c2, &l2)) {
+                                    size_t base = PDU_BASE + g_place;
+                                    const char* reg = (o2 < base) ? "stray-write-before" : (o2 - base < H) ? "header" : (o2 - base < H + L2) ? "payload" : (o2 - base < total2) ? "pad-bytes" : "beyond-message";
+                                    if (vp_viol(c, "can", bnames[b], fd ? "fd" : "classic", reg, "rebuilt-in-place", 0)) {
+                                        o_s(c, "{\"first_len\":"); o_u(c, L); o_s(c, ",\"second_len\":"); o_u(c, L2); o_s(c, ",\"id\":\""); o_x(c, id); o_s(c, "\",\"first_off\":"); o_u(c, o2 >= base ? o2 - base : 0);
+                                        o_s(c, ",\"expected\":\""); o_hex(c, s, total2 > 40 ? 40 : total2); o_s(c, "\",\"actual\":\""); o_hex(c, p, total2 > 40 ? 40 : total2); o_s(c, "\"}"); o_end(c);
+                                    }
+                                    vp_arena_resync(&a);
+                                }
+                                if (!brief) {
+                                    vp_call(c);
+                                    uint8_t rl = Avtp_Can_GetCanPayloadLength((Avtp_Can_t*)p);
+                                    c->evals++;
+                                    if (rl != L2 && vp_viol(c, "can", bnames[b], "payload-length-readback", "rebuilt-in-place", 0, 0)) { o_s(c, "{\"first_len\":"); o_u(c, L); o_s(c, ",\"second_len\":"); o_u(c, L2); o_s(c, ",\"read_back\":"); o_u(c, rl); o_s(c, "}"); o_end(c); }
+                                }
+                            }
+                        }
                         vp_heap_free(src);
                         if (heap) vp_heap_free(heap);
                     }
